@@ -120,6 +120,8 @@ class Executor:
 
             # Resolve the dependencies of needed
             dep_graph = nx.DiGraph(G.edges)
+            # Nodes without any edges (e.g. unused constants) must be present as well
+            dep_graph.add_nodes_from(G)
             for node in sort_order:
                 attr = G.nodes[node]
                 if attr.keys() >= {'operation', 'output'}:
